@@ -17,6 +17,7 @@ type retInfo struct {
 	st      *State
 	results []Val
 	panics  bool
+	blk     *ssa.BasicBlock
 }
 
 type frame struct {
@@ -459,11 +460,11 @@ func (f *frame) run(args []Val, st0 *State) []retInfo {
 				for _, r := range t.Results {
 					rs = append(rs, f.val(r))
 				}
-				rets = append(rets, retInfo{cond: st.reach, st: st, results: rs})
+				rets = append(rets, retInfo{cond: st.reach, st: st, results: rs, blk: b})
 			case *ssa.Panic:
 				f.panicOrd++
 				f.handlePanic(t, st)
-				rets = append(rets, retInfo{cond: st.reach, st: st, panics: true})
+				rets = append(rets, retInfo{cond: st.reach, st: st, panics: true, blk: b})
 			default:
 				f.exec(instr, st)
 			}
@@ -719,8 +720,8 @@ func (f *frame) entryParams() map[string]Val {
 func (f *frame) ghostVars() map[string]Val {
 	m := map[string]Val{}
 	if f.top {
-		for k, v := range f.c.ghosts {
-			m[k] = v
+		for k := range f.c.ghosts {
+			m[k] = f.c.ghostAt(k, f.curBlock)
 		}
 	}
 	return m
